@@ -202,8 +202,8 @@ func check(e entry, src []byte) (outcome string) {
 	}
 	if err == nil {
 		if tree != nil && !reflect.ValueOf(tree).IsNil() {
-			if b := badKind(tree); b != "" {
-				oracle("nil-error-with-"+b, e.name, src, "error is nil but the tree holds a "+b)
+			if k, d := treeProblem(tree, len(src)); k != "" {
+				oracle(k, e.name, src, d)
 			}
 		} else if wantTree {
 			oracle("nil-ast", e.name, src, "no tree and no error")
@@ -886,6 +886,19 @@ func main() {
 		} else {
 			fileEntries = append(fileEntries, e)
 		}
+	}
+	// (g0) the combination schedule of XGo-specific conjunctions (full product of the factors)
+	for i := 0; i < comboCount(); i++ {
+		stmt, expr := comboFragment(i)
+		e := fileEntries[(i+int(f.Seed))%len(fileEntries)]
+		if i%2 == 0 {
+			stmt = "func f() {\n" + stmt + "}\n"
+		}
+		count(e, []byte(stmt))
+		if i%3 == int(f.Seed%3) {
+			count(exprEntries[i%len(exprEntries)], []byte(expr))
+		}
+		out.Count("combo_cases")
 	}
 	feat := map[string]int{}
 	nFrag := f.N
